@@ -89,7 +89,7 @@ func doorsStoreOnSuccess(x *Ctx) {
 			}
 			if p.End == paths.EndReturn {
 				// leaving with an error (or, for a loop body run by an iterator, with "stop") is not a success
-				if rs := p.Results(); len(rs) > 0 && rs[len(rs)-1] != nil && !rs[len(rs)-1].IsNil() && rs[len(rs)-1].String() != "const(true)" {
+				if rs := p.Results(); len(rs) > 0 && rs[len(rs)-1] != nil && !rs[len(rs)-1].IsNil() && rs[len(rs)-1].String() != "const(true)" && !p.HasFact(eqs(rs[len(rs)-1].String(), "const(nil)"), true) {
 					continue
 				}
 			}
